@@ -127,12 +127,16 @@ type rootObs struct {
 var (
 	hookOnce  sync.Once
 	rootWatch sync.Map // *formula.Runner -> *rootObs
+	gateWatch sync.Map // *formula.Runner -> func() blocking gate
 )
 
 func installHooks() {
 	hookOnce.Do(func() {
 		nop := func() {}
 		formula.VerifResolveHook = func(r *formula.Runner, v formula.Expression, res *interface{}, err *error) func() {
+			if g, ok := gateWatch.Load(r); ok {
+				g.(func())() // scheduler gate (C09): blocks until this goroutine may pass
+			}
 			o, ok := rootWatch.Load(r)
 			if !ok {
 				return nop
